@@ -111,6 +111,7 @@ pub fn run(rng: &mut Rng, n: usize, rep: &mut Report) {
                 }
                 w.set_bank(&k0, &b);
                 specs[si].pyth = None;
+                specs[si].swb = None;
                 specs[si].oracle_meta = None;
                 a.lending_account.balances[0].asset_shares = I80F48::from_bits((1_000_000 + rng.below(1_000_000_000_000) as i128) * ONE).into();
                 a.lending_account.balances[0].liability_shares = I80F48::from_bits(0).into();
